@@ -499,8 +499,6 @@ def ref_set(rec, key, val):
   if 'self' in key:
     return val
   if 'skip' in key:
-    if rec is not _NOTHING and not isinstance(rec, (dict, list, tuple)):
-      raise Routing('not a container')
     return rec
   if 'lit' in key:
     raise Routing('a literal is not a place')
